@@ -17,15 +17,15 @@ from ..scen import hb
 
 LEVEL = 'exploration'
 RULE = ('grid (exhaustive every run): direction {request->server, response->client} x request method {GET,HEAD,POST} x status '
-        '{200,204,304,404,100-then-200} x content-length {absent,0,n,n-1,n+1} x body n in {0,1,10} split into 1-3 DATA frames '
+        '{200,204,304,404,100-then-200,103-with-its-own-content-length-then-200} x content-length {absent,0,n,n-1,n+1} x body n in {0,1,10} split into 1-3 DATA frames '
         '(empty frame first/last) x padding {none,0,7} x END_STREAM on {HEADERS, last DATA, extra empty DATA, trailers} x HEAD '
         'request trailers {no,yes}; thorough adds random larger bodies and chunkings; non-trivial = message reached its '
         'END_STREAM frame or was rejected and the verdict was compared; distinct = grid cell')
-MINIMA = {'messages_judged': 3000, 'malformed_expected': 800, 'wellformed_expected': 800, 'no_content_responses': 300}
+MINIMA = {'messages_judged': 3000, 'malformed_expected': 800, 'wellformed_expected': 800, 'no_content_responses': 300, 'informational_with_content_length': 300}
 EXHAUSTIVE = {}
 
 METHODS = [b'GET', b'HEAD', b'POST']
-STATUSES = ['200', '204', '304', '404', '100+200']
+STATUSES = ['200', '204', '304', '404', '100+200', '103cl+200']
 CLS = ['absent', '0', 'n', 'n-1', 'n+1']
 BODIES = [0, 1, 10]
 SPLITS = ['one', 'two', 'three', 'empty-first', 'empty-last']
@@ -136,6 +136,11 @@ def run_cell(cell, rep, layer):
         if status == '100+200':
             frames.append((wire.build_headers(sid, hb([(b':status', b'100')])), False))
             final = '200'
+        elif status == '103cl+200':
+            # an informational response that carries a content-length of its own: it says nothing about the final response
+            frames.append((wire.build_headers(sid, hb([(b':status', b'103'), (b'content-length', b'7')])), False))
+            final = '200'
+            rep.count('informational_with_content_length')
         hdr = [(b':status', final.encode())] + extra
     else:
         sid = h.peer_next
